@@ -298,7 +298,6 @@ void TypeAuditor::OnError(const SemanticEID eid, const StrPos position, const Ex
 void TypeAuditor::Clear() noexcept {
   localVars.clear();
   functionArgs.clear();
-  functionArgsID.clear();
   currentType = {};
 }
 
@@ -339,12 +338,9 @@ bool TypeAuditor::ViFunctionDefinition(Cursor iter) {
   {
     const auto guard = isFuncDeclaration.CreateGuard();
     if (!VisitChild(iter, 0)) {
+      functionArgs.clear();
       return false;
     }
-  }
-
-  for (auto n : functionArgsID) {
-    functionArgs.emplace_back(localVars.at(n).arg);
   }
 
   const auto type = ChildType(iter, 1);
@@ -1185,12 +1181,15 @@ bool TypeAuditor::AddLocalVariable(const std::string& name, const Typification& 
       varIter->arg.type = type;
       varIter->enabled = true;
       varIter->level = 0;
-       return true;
+      if (isArgDeclaration) {
+        functionArgs.emplace_back(varIter->arg);
+      }
+      return true;
     }
   } else {
     localVars.emplace_back(LocalData{ TypedID{name, type}, 0, 0, true });
     if (isArgDeclaration) {
-      functionArgsID.emplace_back(localVars.size() - 1U);
+      functionArgs.emplace_back(localVars.back().arg);
     }
     return true;
   }
